@@ -21,7 +21,9 @@ TECHNIQUE = ("the real Scenario.stepForward, getRelevantEvents/handleRelevantEve
              "event rows), the real event classes' handleEvent (ScheduledImpulseEvent, TargetAdditionEvent, AgentRemovalEvent, SensorTimeBiasEvent, TargetTaskPriority), "
              "ScenarioClock.ticToc/julian_date_epoch/datetime_epoch, ScenarioTime.convertToJulianDate and JulianDate.convertToScenarioTime are executed for three consecutive steps on "
              "symbolic IEEE doubles (symx.fp) and a symbolic calendar start instant, step size and step index; the start/end Julian dates of the event rows are those of symbolic "
-             "whole-second instants; z3 decides on every path that each event is handed to exactly the addressed handler in exactly the step whose interval contains it")
+             "whole-second instants; z3 decides on every path that each event is handed to exactly the addressed handler in exactly the step whose interval contains it; "
+             "applied-*/pair-* additionally run the real PropagateRegistration.generateSubmission (queue pruning) / processResults with the worker's propagate cut to its impulse "
+             "contract, with one row resp. two rows (same agent or two agents, times free to share a step or an instant), and decide that every row's delta-v is applied exactly once")
 FLOAT_SEMANTICS = "IEEE-754 double (relaxed encoding for proofs - sound; candidates replayed on the real code; exact encoding for the candidate's start date when a candidate does not replay)"
 ENCODED = ["resonaate.scenario.scenario:Scenario.stepForward", "resonaate.data.events:getRelevantEvents", "resonaate.data.events:handleRelevantEvents",
            "resonaate.scenario.clock:ScenarioClock.ticToc", "resonaate.physics.time.stardate:ScenarioTime.convertToJulianDate",
@@ -29,19 +31,33 @@ ENCODED = ["resonaate.scenario.scenario:Scenario.stepForward", "resonaate.data.e
            "resonaate.data.events.scheduled_impulse:ScheduledImpulseEvent.fromConfig", "resonaate.data.events.target_addition:TargetAdditionEvent.handleEvent",
            "resonaate.data.events.agent_removal:AgentRemovalEvent.handleEvent", "resonaate.data.events.sensor_time_bias:SensorTimeBiasEvent.handleEvent",
            "resonaate.data.events.target_task_priority:TargetTaskPriority.handleEvent", "resonaate.agents.agent_base:Agent.appendPropagateEvent",
-           "resonaate.agents.agent_base:Agent.prunePropagateEvents", "resonaate.tasking.engine.centralized_engine:CentralizedTaskingEngine.assess"]
+           "resonaate.agents.agent_base:Agent.prunePropagateEvents", "resonaate.tasking.engine.centralized_engine:CentralizedTaskingEngine.assess",
+           "resonaate.parallel.agent_propagation:PropagateRegistration.generateSubmission", "resonaate.parallel.agent_propagation:PropagateRegistration.processResults",
+           "resonaate.physics.maths:fpe_equals"]
 BOUNDS = {"start instant": "any whole second 1901-01-01 .. 2099-11-30", "dt": "quick {60, 300, 3080}; thorough adds {1, 7, 45, 3600}", "step index": "k0 symbolic, 0 .. 30 days / dt",
-          "steps": "3 consecutive stepForward calls", "events": "one event row per run (any kind), start/end = start instant + symbolic whole seconds inside the three steps (aligned times included)",
-          "agents": "3 targets, 2 sensors, 2 engines (ids symbolic over the universe)"}
+          "steps": "3 consecutive stepForward calls", "events": "one event row per run (any kind), start/end = start instant + symbolic whole seconds inside the three steps (aligned times included); "
+                                                                "pair-*: two impulse rows per run (first not planned, second planned), each at a symbolic whole second inside the first two steps - same step, same instant and either order included; "
+                                                                "a-mid / b-mid: one of the two rows strictly inside a step, the other on any second; thorough adds both rows on any second for dt 60 / 300",
+          "agents": "3 targets, 2 sensors, 2 engines (ids symbolic over the universe); pair-*: row A addressed to a symbolic id (thorough: out of the 3 targets; quick and the 'both' shapes: one id per obligation, different ones across the obligations), row B to the same id (pair-same) "
+                    "or to the cyclically next id (pair-two); the feasible ids are enumerated by forking so that containers keyed by ids behave as on ints",
+          "pair-* step sizes": "quick 60; thorough 60, 300, 3080"}
 OUTSIDE = ["SQLite's own comparison of stored doubles (the translated where-clause is evaluated as written)", "events with sub-second times", "construction of agents in addTarget/addSensor (recorded as calls)",
-           "the numerical effect of an impulse inside the integrator (C15/C03 cover the restart loop; here the impulse is queued once with the time of its row and pruned once past)"]
+           "the numerical effect of an impulse inside the integrator (C15/C03 cover the restart loop; here the impulse is queued once with the time of its row and pruned once past)",
+           "three or more event rows inside one step; two rows of other kinds than impulses in one step (each kind is covered with one row per run)",
+           "application of a planned impulse inside the estimate's filter prediction (EstPredictRegistration is stubbed): for estimates only the delivery (exactly once, same step, same agent id) is decided",
+           "tolerance comparisons (math.isclose / numpy.isclose) exactly on their threshold in double rounding are decided in the relaxed rounding model first; only candidates that replay on the real code count"]
 ASSUMPTIONS = ["datetimeToJulianDate(t) -> a double within 2^-31 d of the exact Julian date of t, the same double for the same instant (this is what C05's jd-accuracy obligations prove; cut)",
                "datetime/timedelta -> integer calendar model (symx.dtmodel)", "database.getData(query) returns exactly the rows satisfying the query's where-clause (stub database; translator in this harness)",
-               "ray / executors / logger / EventStack stubbed; agents are recording tokens with the real Agent.appendPropagateEvent / prunePropagateEvents"]
+               "ray / executors / logger / EventStack stubbed; agents are recording tokens with the real Agent.appendPropagateEvent / prunePropagateEvents",
+               "applied-*/pair-*: the remote worker (asyncPropagate -> Celestial.propagate) is cut to its contract for impulses (C03/C15 decide it on the real restart loop): an impulse of the submitted queue is "
+               "applied exactly once iff init_time <= its time <= final_time, equality in the code's own fpe_equals tolerance; nothing else is applied; the replay runs the real TwoBody.propagate / scipy integrator instead",
+               "the Julian dates handed to the code (rows' start/end, query bounds) hash to one bucket and the agent ids of pair-* are forked to ints, so sets / dicts keyed by them compare with == (a solver term) as they would on floats / ints",
+               "math.isclose / numpy.isclose / numpy.allclose, where an analysed module binds them (none on the current tree), run on symbolic doubles by their documented formula "
+               "(a == b or |b-a| <= |rel*b| or |b-a| <= |rel*a| or |b-a| <= abs; numpy: |a-b| <= atol + rtol*|b|) with the rounded double operations of symx.fp (symx.ext_c01)"]
 LEVEL_TEXT = ("Bounded symbolic verification in IEEE double semantics over all (start instant, step, step index, event time) tuples: the query windows of consecutive steps, the "
               "event rows' Julian dates and the where-clause are solver terms, so a gap, an overlap, a one-ulp disagreement between differently computed dates or a missing filter "
               "clause is a satisfiable query with a concrete replay - the failing configurations are too sparse for sampled scenarios.")
-LEVEL_NOTE = "Three consecutive steps, one event row per run; datetimeToJulianDate cut to its C05 contract; SQLite comparison trusted; impulse application inside the integrator is C15/C03."
+LEVEL_NOTE = "Three consecutive steps, one event row per run (two impulse rows in pair-*); datetimeToJulianDate cut to its C05 contract; SQLite comparison trusted; impulse application inside the integrator is C15/C03."
 
 JD_1901 = Fraction(4830771, 2)
 TGT_IDS, SEN_IDS, ENG_IDS = (11, 12, 13), (21, 22), (1, 2)
@@ -132,6 +148,13 @@ class JDProvider:
     def __init__(self, ns):
         self.ns, self.memo = ns, {}
 
+        def body(d):
+            d.update(__slots__=(), __module__=ns.JulianDate.__module__, __hash__=lambda self: 0)
+
+        # the Julian dates handed out (event rows' start/end, query bounds) hash to one bucket, so that a set / dict keyed by them compares
+        # them with == (a solver term the engine forks on) instead of silently treating two symbolic dates as different keys
+        self.cls = types.new_class("JulianDate", (ns.JulianDate,), exec_body=body)
+
     def __call__(self, d):
         tot = z3.simplify(d.tot)
         key = tot.get_id()
@@ -146,7 +169,7 @@ class JDProvider:
             for tot2, x2 in self.memo.values():
                 p.assume(z3.Implies(tot == tot2, x.t == x2.t))
             self.memo[key] = (tot, x)
-        return self.ns.JulianDate(self.memo[key][1])
+        return self.cls(self.memo[key][1])
 
 
 def _token_agent(ns, aid, js, log, kind):
@@ -157,8 +180,12 @@ def _token_agent(ns, aid, js, log, kind):
         realtime = True
         simulation_id = aid
         julian_date_start = js
-        appendPropagateEvent = Agent.appendPropagateEvent
         prunePropagateEvents = Agent.prunePropagateEvents
+
+        def appendPropagateEvent(self, ev):
+            # observation point "event delivered to this agent" (the real method does the queueing)
+            log.append(("append", kind, aid, log.step, ev))
+            Agent.appendPropagateEvent(self, ev)
 
         station_keeping = ()
         dynamics = "dynamics-token"
@@ -282,14 +309,31 @@ class ContractExecutor:
             reg.processResults(PropagateResult(agent_id=sub.agent_id, final_time=sub.final_time, prev_state=sub.init_eci, final_eci=("state", sub.agent_id, self.log.step + 1)))
 
 
+def _with_closeness(mods):
+    """The (module, shadows) list for time_env, extended by the tolerance comparisons (math.isclose / numpy.isclose / numpy.allclose,
+    also reached through `math.` / `np.`) the modules bind: they run on symbolic doubles by their documented formula (symx.ext_c01).
+    Only names that exist in a module are shadowed.  The modules are imported here, before time_env re-bases the time classes."""
+    import importlib
+
+    from symx.ext_c01 import closeness_names
+
+    out = []
+    for name, kw in mods:
+        kw = dict(kw)
+        for k, v in closeness_names(importlib.import_module(name)).items():
+            kw.setdefault(k, v)
+        out.append((name, kw))
+    return out
+
+
 def run_steps(b_unused, dt, truth_only, mk_events, nsteps=3, pin=None, k0_max=None, apply=False):
     """Three real stepForward calls; returns everything the obligations need."""
     from resonaate.scenario import scenario as SC
 
     mods = [("resonaate.scenario.scenario", {"float": fp.fp_float}), ("resonaate.scenario.clock", {}), ("resonaate.data.events.scheduled_impulse", {"round": fp.fp_round, "int": fp.fp_int, "float": fp.fp_float}), ("resonaate.data.events.target_addition", {}),
             ("resonaate.data.events.agent_removal", {}), ("resonaate.data.events.sensor_time_bias", {}), ("resonaate.data.events.target_task_priority", {}),
-            ("resonaate.agents.sensing_agent", {}), ("resonaate.agents.agent_base", {})]
-    with time_env(mods) as ns:
+            ("resonaate.agents.sensing_agent", {}), ("resonaate.agents.agent_base", {}), ("resonaate.parallel.agent_propagation", {}), ("resonaate.physics.maths", {})]
+    with time_env(_with_closeness(mods)) as ns:
         jdp = JDProvider(ns)
         n0, sod0, k0 = integer("n0"), integer("sod0"), integer("k0")
         assume(n0.t >= 0, n0.t <= 72683 - 62, sod0.t >= 0, sod0.t <= 86399, k0.t >= 0, k0.t * dt <= (k0_max if k0_max is not None else 30 * 86400))
@@ -342,12 +386,12 @@ def run_steps(b_unused, dt, truth_only, mk_events, nsteps=3, pin=None, k0_max=No
 # ------------------------------------------------------------------------------------------------
 # event rows
 # ------------------------------------------------------------------------------------------------
-def _impulse_row(jdp, t0, m, target, planned=False):
+def _impulse_row(jdp, t0, m, target, planned=False, dvz=1e-3):
     from resonaate.data.events import EventScope, ScheduledImpulseEvent
 
     e = jdp(t0 + STimeDelta(seconds=m))
     return ScheduledImpulseEvent(scope=EventScope.AGENT_PROPAGATION.value, scope_instance_id=target, start_time_jd=e, end_time_jd=e, event_type="impulse",
-                                 thrust_vec_0=0.0, thrust_vec_1=0.0, thrust_vec_2=1e-3, thrust_frame="eci", planned=planned)
+                                 thrust_vec_0=0.0, thrust_vec_1=0.0, thrust_vec_2=dvz, thrust_frame="eci", planned=planned)
 
 
 def _offsets(dt, k0, steps=3, strict_inside=True):
@@ -667,10 +711,15 @@ def replay_scopes(d):
 
 
 # ---- the impulse changes the truth velocity exactly once ------------------------------------------------
-def replay_applied(d):
+DVZ_A, DVZ_B = 1e-3, 3e-3  # out-of-plane delta-v (km/s) of the first / second impulse row: the magnitude identifies the row an impulse was made from
+_MU, _R0 = 398600.4418, 7000.0
+
+
+def _apply_run(d, rows):
     """The whole chain on the real code: real stepForward, real ScheduledImpulseEvent.handleEvent, real PropagateRegistration
-    (generateSubmission / processResults), and the worker's real TwoBody.propagate with the real scipy integrator.  The number
-    of times the impulse's getStateChange ran is counted, and the velocity jump is measured."""
+    (generateSubmission / processResults), and the worker's real TwoBody.propagate with the real scipy integrator, three steps.
+    rows = [(offset_s, target id, dvz, planned)].  Observed per row: the deliveries (agent kind, agent id, step) of its impulse to an
+    agent's appendPropagateEvent, the steps in which its getStateChange ran; per target: the final out-of-plane velocity."""
     import numpy as np
 
     from resonaate.data.events import EventScope, ScheduledImpulseEvent
@@ -682,21 +731,22 @@ def replay_applied(d):
     from resonaate.scenario import scenario as SC
 
     start = _dt.datetime.fromisoformat(d["start"])
-    dt, k0, m = d["dt"], d["k0"], d["m"]
+    dt, k0 = d["dt"], d["k0"]
     ns = types.SimpleNamespace(JulianDate=JulianDate, ScenarioTime=ScenarioTime)
     log = _Log()
     js = datetimeToJulianDate(start)
-    tgt = d.get("target", TGT_IDS[0])
-    e = datetimeToJulianDate(start + _dt.timedelta(seconds=m))
-    ev = ScheduledImpulseEvent(scope=EventScope.AGENT_PROPAGATION.value, scope_instance_id=tgt, start_time_jd=e, end_time_jd=e, event_type="impulse",
-                               thrust_vec_0=0.0, thrust_vec_1=0.0, thrust_vec_2=1e-3, thrust_frame="eci", planned=False)
+    evs = []
+    for m, tgt, dvz, planned in rows:
+        e = datetimeToJulianDate(start + _dt.timedelta(seconds=m))
+        evs.append(ScheduledImpulseEvent(scope=EventScope.AGENT_PROPAGATION.value, scope_instance_id=tgt, start_time_jd=e, end_time_jd=e, event_type="impulse",
+                                         thrust_vec_0=0.0, thrust_vec_1=0.0, thrust_vec_2=dvz, thrust_frame="eci", planned=planned))
     clock = object.__new__(CK.ScenarioClock)
     clock.datetime_start, clock.julian_date_start = start, js
     clock.dt_step, clock.time, clock.initial_time = ScenarioTime(dt), ScenarioTime(k0 * dt), ScenarioTime(0)
     sc = object.__new__(SC.Scenario)
     sc.clock = clock
     sc.current_julian_date = clock.julian_date_epoch
-    sc.database = StubDB([ev])
+    sc.database = StubDB(evs)
     nul = lambda *a, **k: None  # noqa: E731
     sc.logger = types.SimpleNamespace(info=nul, error=nul, debug=nul, warning=nul)
     sc.scenario_config = types.SimpleNamespace(propagation=types.SimpleNamespace(truth_simulation_only=True))
@@ -704,7 +754,7 @@ def replay_applied(d):
     sc._sensor_agents, sc._estimate_agents = {}, {i: _token_agent(ns, i, js, log, "estimate") for i in TGT_IDS}
     sc._ephem_importer = None
     sc._stepped_epochs = {}  # (attribute the real constructor sets)
-    x0 = np.array([7000.0, 0.0, 0.0, 0.0, 7.546, 0.0])
+    x0 = np.array([_R0, 0.0, 0.0, 0.0, 7.546, 0.0])
     for a in sc.target_agents.values():
         a._time, a.dt_step, a.eci_state, a.dynamics, a.datetime_start = ScenarioTime(k0 * dt), ScenarioTime(dt), x0.copy(), TwoBody(), start
     calls = []
@@ -720,23 +770,64 @@ def replay_applied(d):
             jobs, self.jobs = self.jobs, []
             for reg in jobs:
                 sub = reg.generateSubmission()
-                vz0 = sub.init_eci[5]
                 new = sub.dynamics.propagate(sub.init_time, sub.final_time, sub.init_eci, station_keeping=sub.station_keeping, scheduled_events=sub.scheduled_events)
                 reg.processResults(AP.PropagateResult(agent_id=sub.agent_id, final_time=sub.final_time, prev_state=sub.init_eci, final_eci=new))
 
     sc._agent_propagator = Exec()
     sc._estimate_predictor = sc._estimate_updater = types.SimpleNamespace(enqueueJob=nul, join=nul)
     sc._target_store, sc._sensor_store, sc._estimate_store, sc._tasking_engines = {}, {}, {}, {}
-    stack = types.SimpleNamespace(pushEvent=lambda rec: calls.append(log.step), logAndFlushEvents=nul)
-    with shadow(SC, ray=types.SimpleNamespace(put=lambda x: x), EventStack=stack, EstPredictRegistration=_Reg, EstUpdateRegistration=lambda *a: None), \
-            shadow(SIE, EventStack=stack), shadow(AP, ReductionParams=types.SimpleNamespace(build=lambda dd: None)):
-        for s in range(3):
-            log.step = s
-            sc.stepForward()
-    vz = float(sc.target_agents[tgt].eci_state[5])
-    want_step = (m - k0 * dt - 1) // dt
-    ok = len(calls) == 1 and calls[0] in (want_step, want_step + 1) and abs(vz - 1e-3) < 2e-4
-    return (not ok), {"getStateChange_calls_in_steps": calls, "expected_once_in_step": [want_step, want_step + 1], "vz_after_km_s": vz, "delta_v_z_km_s": 1e-3}
+    stack = types.SimpleNamespace(pushEvent=nul, logAndFlushEvents=nul)
+    real_change = SIE.ScheduledECIImpulse.getStateChange
+
+    def spy(self, time, state):  # observation only: which impulse object fired, in which step; the real method computes the change
+        calls.append((log.step, float(self.thrust[5]), int(self.agent_id)))
+        return real_change(self, time, state)
+
+    SIE.ScheduledECIImpulse.getStateChange = spy
+    try:
+        with shadow(SC, ray=types.SimpleNamespace(put=lambda x: x), EventStack=stack, EstPredictRegistration=_Reg, EstUpdateRegistration=lambda *a: None), \
+                shadow(SIE, EventStack=stack), shadow(AP, ReductionParams=types.SimpleNamespace(build=lambda dd: None)):
+            for s in range(3):
+                log.step = s
+                sc.stepForward()
+                for a in sc._estimate_agents.values():
+                    a._time = sc.clock.time
+                    a.prunePropagateEvents()
+    finally:
+        SIE.ScheduledECIImpulse.getStateChange = real_change
+    n = (_MU / _R0 ** 3) ** 0.5
+    t_end = (k0 + 3) * dt
+    bad, per_row = [], []
+    for m, tgt, dvz, planned in rows:
+        want = (m - k0 * dt - 1) // dt  # the step with t_{k0+s} < m <= t_{k0+s+1}
+        deliv = [(x[1], x[2], x[3]) for x in log if x[0] == "append" and float(x[4].thrust[5]) == dvz]
+        expect = [("target", tgt, want)] + ([("estimate", tgt, want)] if planned else [])
+        fired = [(c[0], c[2]) for c in calls if c[1] == dvz]
+        ok = sorted(deliv) == sorted(expect) and len(fired) == 1 and fired[0][1] == tgt and fired[0][0] in (want, want + 1)
+        per_row.append({"offset_s": m, "target": tgt, "dvz": dvz, "planned": planned, "deliveries(kind, agent, step)": deliv, "expected_deliveries": expect,
+                        "getStateChange(step, agent)": fired, "expected_once_in_step": [want, want + 1]})
+        if not ok:
+            bad.append(len(per_row) - 1)
+    vz = {}
+    for i, a in sc.target_agents.items():
+        # out-of-plane motion about the circular reference orbit is harmonic: an impulse dvz at t_i contributes dvz cos(n (t_end - t_i))
+        want_vz = sum(dvz * float(np.cos(n * (t_end - m))) for m, tgt, dvz, _p in rows if tgt == i)
+        got = float(a.eci_state[5])
+        vz[i] = {"vz_km_s": got, "expected": want_vz}
+        if abs(got - want_vz) > 2e-4:
+            bad.append(f"vz[{i}]")
+    return bool(bad), {"rows": per_row, "final_vz": vz, "failing": bad}
+
+
+def replay_applied(d):
+    """One impulse row: its getStateChange must run exactly once (in the step containing it, or at the start of the next) and the
+    truth velocity must carry its delta-v once (real TwoBody / scipy integrator)."""
+    return _apply_run(d, [(d["m"], d.get("target", TGT_IDS[0]), DVZ_A, False)])
+
+
+def replay_pair(d):
+    """Two impulse rows (the second one planned) addressed to d['target'] / d['target2'] at offsets d['m'] / d['m2']."""
+    return _apply_run(d, [(d["m"], d["target"], DVZ_A, False), (d["m2"], d["target2"], DVZ_B, True)])
 
 
 def o_applied(rep, dt):
@@ -777,6 +868,100 @@ def o_applied(rep, dt):
         rep.error(f"reach{tag}", "no path")
     if pending:
         _ladder(rep, pending, dt, replay=replay_applied)
+
+
+# ---- two impulse rows in one run ------------------------------------------------------------------------
+def _row_facts(log, dvz):
+    """(deliveries to truth agents, deliveries to estimates, deliveries to anything else, applications) of the impulses made from the row with this delta-v."""
+    mine = lambda ev: float(ev.thrust[5]) == dvz  # noqa: E731
+    app = [x for x in log if x[0] == "append" and mine(x[4])]
+    return ([x for x in app if x[1] == "target"], [x for x in app if x[1] == "estimate"], [x for x in app if x[1] not in ("target", "estimate")],
+            [x for x in log if x[0] == "applied" and mine(x[3])])
+
+
+def o_pair(rep, dt, same, shape, first=TGT_IDS):
+    """Two impulse rows A (not planned) and B (planned) with symbolic whole-second times inside the first two of three steps - possibly the
+    same step, possibly the same instant - addressed to the same truth agent (`same`) or to two different ones.  Every row is handed
+    to appendPropagateEvent of exactly the addressed truth agent exactly once, in the step containing its time (B also to that agent's
+    estimate, A to no estimate), and through the real PropagateRegistration + the worker's impulse contract each delta-v is applied
+    exactly once.  The agent ids are solver variables whose feasible values are enumerated by forking (so that containers keyed by them
+    behave as on ints).  shape: 'a-mid' = A strictly inside a step, B any second; 'b-mid' = B strictly inside, A any second;
+    'both' = both any second (thorough; 64 time classes per id pair).  first: the ids row A may be addressed to (row B: the same id, resp. the
+    cyclically next one)."""
+    def mk(ns, jdp, t0, k0):
+        ta, tb = integer("target"), integer("target2")
+        assume(z3.Or(*[ta.t == i for i in TGT_IDS]), z3.Or(*[tb.t == i for i in TGT_IDS]))
+        assume(z3.Or(*[ta.t == i for i in first]))
+        if same:
+            assume(tb.t == ta.t)
+        else:
+            assume(z3.Or(*[z3.And(ta.t == TGT_IDS[i], tb.t == TGT_IDS[(i + 1) % len(TGT_IDS)]) for i in range(len(TGT_IDS))]))
+        a, b = ta.concretize(), tb.concretize()
+        ma, mb = integer("m"), integer("m2")
+        assume(ma.t > k0.t * dt, ma.t <= (k0.t + 2) * dt, mb.t > k0.t * dt, mb.t <= (k0.t + 2) * dt)
+        if shape == "a-mid":
+            assume(ma.t % dt != 0)
+        elif shape == "b-mid":
+            assume(mb.t % dt != 0)
+        return [_impulse_row(jdp, t0, ma.t, a, planned=False, dvz=DVZ_A), _impulse_row(jdp, t0, mb.t, b, planned=True, dvz=DVZ_B)]
+
+    res = _explore(lambda: run_steps(None, dt, True, mk, apply=True), "relaxed")
+    tag = f"[dt={dt},{'same agent' if same else 'two agents'},{shape}]"
+    extra = ("target", "target2", "m2")
+    n, pending, steps_seen = 0, [], set()
+    for k, r in enumerate(res):
+        if r.exc is not None:
+            if isinstance(r.exc, (Unsupported, TypeError, AttributeError, NameError)):
+                rep.error(f"exception{tag}#{k}", repr(r.exc))
+                continue
+            m = solve(r.constraints, 30000)
+            if m.status == "sat":
+                pending.append((f"raises{tag}#{k}", _inputs(dt, extra)(m.model), list(r.constraints), f"{type(r.exc).__name__}: {r.exc}"))
+            elif m.status == "unknown":
+                rep.undecided(f"raises{tag}#{k}", m.reason)
+            continue
+        n += 1
+        out = r.out
+        k0, log = out["k0"], out["log"]
+        goals, dsteps = [], []
+        for row, mt, dvz, planned in ((out["events"][0], z3.Int("m"), DVZ_A, False), (out["events"][1], z3.Int("m2"), DVZ_B, True)):
+            aid = row.scope_instance_id  # python int on this path
+            truth, est, other, applied = _row_facts(log, dvz)
+            goals.append(z3.BoolVal(len(truth) == 1 and not other and len(est) == (1 if planned else 0)))
+            if truth:
+                _a, _kind, got, s, imp = truth[0]
+                dsteps.append(s)
+                goals += [z3.BoolVal(got == aid), z3.And(mt > (k0.t + s) * dt, mt <= (k0.t + s + 1) * dt),
+                          z3.And(imp.time.t - z3.ToReal(mt) < rv(Fraction(1, 1000)), z3.ToReal(mt) - imp.time.t < rv(Fraction(1, 1000)))]
+                if est:
+                    goals.append(z3.BoolVal(est[0][2] == aid and est[0][3] == s))
+            goals.append(z3.BoolVal(len(applied) == 1))
+            if applied:
+                _a, got, s, ev = applied[0]
+                goals += [z3.BoolVal(got == aid), z3.And(mt > (k0.t + s - 1) * dt, mt <= (k0.t + s + 1) * dt)]
+        steps_seen.add(tuple(dsteps))
+        goal = z3.And(*goals)
+        cons = fp.sliced(r.path, goal) + [z3.Not(goal)]
+        v = solve(cons, 120000)
+        rep._item(f"pair{tag}#{k}", "prove", v)
+        rep.sample({"obligation": f"pair{tag}", "verdict": v.status, "what": "two impulse rows: each is handed exactly once to the addressed truth agent (the planned one also to its estimate) in the step containing its time, and each delta-v is applied exactly once (real generateSubmission/prune/processResults; worker by its impulse contract)"})
+        if v.status == "unknown":
+            rep.undecided(f"pair{tag}#{k}", v.reason)
+        elif v.status == "sat":
+            pending.append((f"pair{tag}#{k}", _inputs(dt, extra)(v.model), cons, "relaxed-rounding candidate"))
+    if n == 0:
+        rep.error(f"reach{tag}", "no path")
+    # vacuity guard: the explored classes include both rows in the same step and in different steps
+    for want, what in (((0, 0), "both rows in the first step"), ((1, 1), "both rows in the second step"), ((0, 1), "A then B in consecutive steps"), ((1, 0), "B then A in consecutive steps")):
+        if pending:
+            break
+        if want in steps_seen:
+            rep.reach.append(f"class{tag}:{what}")
+            rep.items.append({"label": f"class{tag}:{what}", "kind": "reach", "verdict": "sat", "secs": 0})
+        else:
+            rep.error(f"class{tag}:{what}", "vacuous: no explored path delivers the rows this way")
+    if pending:
+        _ladder(rep, pending, dt, replay=replay_pair, extra=extra)
 
 
 # ---- the query predicate ---------------------------------------------------------------------------
@@ -974,7 +1159,21 @@ def obligations(tier):
     for dt in ((60, 300) if tier == "quick" else (45, 60, 300, 3080)):
         obs.append(Ob(f"applied-dt{dt}", (lambda dt: lambda rep: o_applied(rep, dt))(dt), f"impulse applied exactly once to the truth agent, dt={dt}", 900))
         REPLAYS[f"applied-dt{dt}"] = replay_applied
+    # (dt, same agent?, shape, ids of row A); row B goes to the same id resp. the cyclically next one
+    if tier == "quick":
+        pairs = [(60, True, "a-mid", TGT_IDS[:1]), (60, True, "b-mid", TGT_IDS[2:]), (60, False, "b-mid", TGT_IDS[:1]), (60, False, "a-mid", TGT_IDS[2:])]
+    else:
+        pairs = [(dt, same, shape, TGT_IDS) for dt in (60, 300) for same in (True, False) for shape in ("a-mid", "b-mid")]
+        pairs += [(3080, True, "b-mid", TGT_IDS), (3080, False, "a-mid", TGT_IDS), (60, True, "both", TGT_IDS[:1]), (300, False, "both", TGT_IDS[:1])]
+    for dt, same, shape, first in pairs:
+        name = f"pair-{'same' if same else 'two'}-dt{dt}-{shape}"
+        obs.append(Ob(name, (lambda dt, same, shape, first: lambda rep: o_pair(rep, dt, same, shape, first))(dt, same, shape, first),
+                      f"two impulse rows ({'one agent' if same else 'two agents'}) each delivered and applied exactly once, dt={dt}", 1500 if shape == "both" else 900))
+        REPLAYS[name] = replay_pair
     for dt in ((60, 3080) if tier == "quick" else (7, 60, 300, 3080)):
         obs.append(Ob(f"scopes-dt{dt}", (lambda dt: lambda rep: o_scopes(rep, dt))(dt), f"scenario / observation scopes and engine epochs, dt={dt}", 900))
         REPLAYS[f"scopes-dt{dt}"] = replay_scopes
     return obs
+
+
+obligations("thorough")  # fills REPLAYS (every obligation name of both tiers) at import time, for `runner --replay`
